@@ -33,7 +33,19 @@ def classify(rej):
     return "resumable-session-restarted:%s" % ("after-zero-chunk-requests" if zero and len(sids) <= 3 else "three-held-none-opened")
 
 
+def replay(c):
+    _, reset = gsp_util.load_replay(c)
+    scen, trace = c.path("replay_scen.ndjson"), c.path("replay_trace.ndjson")
+    with open(scen, "w") as f:
+        f.write(json.dumps({"lim": reset["lim"], "tight": reset.get("tight", False), "script": reset["script"]}) + "\n")
+    c.vh(["gsp-seeder", scen, trace, -1])
+    r = gsp_util.validate_many(c, "gsp", "SeederTrace", trace, parallel=1)
+    return gsp_util.finish_replay(c, r, "BaseSeeder")
+
+
 def run(c):
+    if c.replay:
+        return replay(c)
     W = 6
     r1 = c.tlc_must_pass("gsp", "MC_Seeder", cfg="MC_Seeder4", workers=3, timeout=900)
     n2 = 0
